@@ -16,6 +16,8 @@
 (*    gen_contract           the generalised-eigen ORACLE contract:        *)
 (*                           A V = B V Lambda, V^T B V = I                 *)
 (*    le_spec                what the property asks of the embedding Y     *)
+(*    adjA_full/matL_full    the same over the FULL neighbour lists (every *)
+(*                           entry the neighbour search returned)          *)
 (*  Diffusion Map: the diffusion operator obtained by normalising the      *)
 (*  Gaussian kernel K:  p = K 1, K1 = P^-1 K P^-1, q = K1 1,               *)
 (*    dm_markov  T = Q^-1 K1          (row-stochastic diffusion operator)  *)
@@ -65,6 +67,29 @@ Section LapSpec.
     wf_matb n n L && Nat.eqb (length D) n &&
     mat_eqb eqb n n (mof L) (matL n) && vec_eqb eqb n (vof D) (degD n).
 End LapSpec.
+
+(* "W holds the heat-kernel weights on NEIGHBOUR PAIRS": every entry of every neighbour list the search
+   returned is a neighbour pair — the FULL lists, whatever count was requested *)
+Section LapFullSpec.
+  Context {F : Type} {Fo : FieldOps F}.
+  Local Open Scope F_scope.
+
+  Variable heat : nat -> nat -> F.
+  Variable nbrs : list (list nat).
+
+  Definition adjA_full (i j : nat) : F :=
+    sumn (length (nth i nbrs [])) (fun p => if Nat.eqb (nb_at nbrs i p) j then heat i j else 0).
+
+  Definition matW_full : mat F := fun i j => adjA_full i j + adjA_full j i.
+
+  Definition degD_full (n : nat) : vec F := fun i => sumn n (fun j => matW_full i j).
+
+  Definition matL_full (n : nat) : mat F := fun i j => mdiag (degD_full n) i j - matW_full i j.
+
+  (* the part of the neighbour search's contract that is used: one common length *)
+  Definition uniform_lists (n : nat) : Prop :=
+    forall i, i < n -> length (nth i nbrs []) = length (hd [] nbrs).
+End LapFullSpec.
 
 Section GenEigSpec.
   Context {F : Type} {Fo : FieldOps F}.
